@@ -118,6 +118,17 @@ class Sched:
             self.lock.notify_all()
 
 
+class Deferred:
+    """a compression whose reading of the input buffer is postponed to the latest moment a real execution allows: just
+    before the compressor hands the result on (its `put`).  A buffer that another thread changes between its hand-over
+    and that moment (a re-used plane-set buffer) then shows in the output, as it can in a real run."""
+    def __init__(self, fn, arr, kw):
+        self.fn, self.arr, self.kw = fn, arr, kw
+
+    def resolve(self):
+        return self.fn(self.arr, **self.kw)
+
+
 class LogFile:
     """the output file: writes are yield points (while the pipeline runs) and are logged with the writing thread"""
     def __init__(self, path, mode, s, real_open):
@@ -169,6 +180,8 @@ def run_controlled(fn, out_path, choose, force_cap=None, timeout=60):
         def f(self, *a, **k):
             if s.active and s.tid() is not None:
                 s.yield_point(name, self)
+            if name == 'put' and a and isinstance(a[0], Deferred):
+                a = (a[0].resolve(),) + tuple(a[1:])
             return o(self, *a, **k)
         return f
 
@@ -207,6 +220,14 @@ def run_controlled(fn, out_path, choose, force_cap=None, timeout=60):
             return LogFile(path, mode, s, real_open)
         return real_open(path, mode, *a, **k)
 
+    import zfpy
+    real_compress = zfpy.compress_numpy
+
+    def lazy_compress(arr, **kw):
+        if s.active and s.tid() == 'C':
+            return Deferred(real_compress, arr, kw)
+        return real_compress(arr, **kw)
+    zfpy.compress_numpy = lazy_compress
     for n in ('put', 'get', 'task_done', 'join'):
         setattr(Q, n, mk(n))
     Q.__init__ = q_init
@@ -228,6 +249,7 @@ def run_controlled(fn, out_path, choose, force_cap=None, timeout=60):
             s.lock.notify_all()
         for n in ('put', 'get', 'task_done', 'join', '__init__'):
             setattr(Q, n, orig[n])
+        zfpy.compress_numpy = real_compress
         threading.Thread.start = orig_start
         builtins.open = real_open
         s.names.pop(threading.get_ident(), None)
